@@ -52,10 +52,11 @@ ReadFailed(e) ==
 
 (* ---- offset_at ---- *)
 OffsetFailed(e) ==
-  LET x == RMul(R(e.d.p, e.d.q), R(e.rate.p, e.rate.q))      \* exact position in samples
-      k == RRound(x)                                          \* BigInt
-      fr == RSub(x, RInt(RFloor(x)))
-      amb == RLt(RAbs(RSub(fr, RHalf)), RQ(1, 1000))
+  LET p == Mul(e.d.p, e.rate.p)  q == Mul(e.d.q, e.rate.q)     \* exact position x = p/q in samples, q > 0
+      y2 == Add(MulInt(p, 2), q)  q2 == MulInt(q, 2)            \* x + 1/2 = y2/q2
+      k == FloorDiv(y2, q2)                                     \* nearest integer unless x is a tie
+      r == Sub(y2, Mul(k, q2))                                  \* r/q2 = frac(x + 1/2)
+      amb == Lt(MulInt(r, 1000), q2) \/ Lt(MulInt(Sub(q2, r), 1000), q2)   \* within 1e-3 of a tie
       inb == ~k.n /\ Le(k, FromInt(e.len))
       want == IF inb THEN [st |-> "ok", k |-> ToInt(k)] ELSE [st |-> "EOFError", k |-> 0]
   IN IF amb THEN {"ambiguous"}
